@@ -16,6 +16,7 @@ import (
 	"math"
 	"os"
 	"runtime"
+	"strings"
 	"testing"
 	"time"
 
@@ -505,6 +506,18 @@ func v14SocketBody(x *vexp.X, kind string) vexp.Result {
 	return res
 }
 
+// v14SockCoefs: projectors are configured per channel, so the channels of the socket family differ in their number of
+// basis functions: channel 0 has four, channel 1 has no projectors (no coefficients), channel 256 has two.
+func v14SockCoefs(ch int, tag int64) []float64 {
+	switch ch {
+	case 0:
+		return []float64{float64(tag), -1.5, math.Inf(1), 0.125}
+	case 1:
+		return nil
+	}
+	return []float64{float64(tag), -1.5}
+}
+
 func v14SocketAttempt(x *vexp.X, kind string, pick func(int) int) (vexp.Result, bool) {
 	s := v14GetSock(kind)
 	nb := 1 + pick(2)
@@ -518,7 +531,7 @@ func v14SocketAttempt(x *vexp.X, kind string, pick func(int) int) (vexp.Result, 
 			ch := []int{0, 1, 256}[pick(3)]
 			tag++
 			rec := &DataRecord{channelIndex: ch, signed: ch == 1, presamples: 1, data: v14Samples(1, 3+i), sampPeriod: 1e-3, voltsPerArb: 0.5,
-				trigTime: vT0.Add(time.Duration(tag) * time.Microsecond), trigFrame: FrameIndex(tag), modelCoefs: []float64{float64(tag), -1.5}}
+				trigTime: vT0.Add(time.Duration(tag) * time.Microsecond), trigFrame: FrameIndex(tag), modelCoefs: v14SockCoefs(ch, tag)}
 			batch = append(batch, rec)
 			want = append(want, rec)
 		}
@@ -571,8 +584,12 @@ func v14SocketAttempt(x *vexp.X, kind string, pick func(int) int) (vexp.Result, 
 			if cls != "" {
 				return bad(cls, "message %d: %s", i, what)
 			}
-			if int(mm.channel) != rec.channelIndex || mm.timeNs != wantNs || len(mm.coefs) != len(rec.modelCoefs) || !v14Same64(mm.coefs[0], rec.modelCoefs[0]) {
-				return bad("c14-sock-content", "message %d decodes to %+v, record is channel %d time %d coefs %v", i, *mm, rec.channelIndex, wantNs, rec.modelCoefs)
+			same := int(mm.channel) == rec.channelIndex && mm.timeNs == wantNs && len(mm.coefs) == len(rec.modelCoefs)
+			for j := 0; same && j < len(mm.coefs); j++ {
+				same = v14Same64(mm.coefs[j], rec.modelCoefs[j])
+			}
+			if !same {
+				return bad("c14-sock-content", "message %d decodes to %+v (%d coefficients), record is channel %d time %d with %d coefficients %v", i, *mm, len(mm.coefs), rec.channelIndex, wantNs, len(rec.modelCoefs), rec.modelCoefs)
 			}
 		} else {
 			mm, cls, what := v14DecodeRecord(m)
@@ -595,6 +612,57 @@ func v14SocketAttempt(x *vexp.X, kind string, pick func(int) int) (vexp.Result, 
 	return res, false
 }
 
+// ---------------------------------------------------------------------------------------------
+// sequence family: the converters are called once per record by one publishing goroutine, for records of every
+// channel in turn; "every published message" therefore quantifies over messages that follow other messages. One
+// execution = a sequence of records whose variable-length parts (samples / coefficients) and channels are chosen
+// independently; each message is decoded and compared in full right after its conversion (what the publisher sends
+// before it converts the next record). The variable-length alphabets are enumerated longest first: the executions are
+// run one after the other in one process, and a converter that keeps something from one message to the next then
+// fails first in an execution that shows it on its own (long, ..., shorter), which replays alone.
+
+const v14SeqLen = 3
+
+var v14SeqChannels = []int{0, 65535}
+
+func v14SeqBody(x *vexp.X, kind string, lens []int, coefSets [][]float64) vexp.Result {
+	var sizes []int
+	var outcome string
+	tm := v14Times[1]
+	varied := false
+	for i := 0; i < v14SeqLen; i++ {
+		ch := v14SeqChannels[x.Choose(len(v14SeqChannels))]
+		rec := &DataRecord{channelIndex: ch, presamples: i, sampPeriod: 1e-3, voltsPerArb: 0.5, trigTime: tm.t, trigFrame: FrameIndex(100 + i),
+			pretrigMean: 1.5, peakValue: -1234.5678, pulseRMS: float64(i), pulseAverage: math.Inf(1), residualStdDev: math.NaN()}
+		var r vexp.Result
+		if kind == "summaries" {
+			ci := len(coefSets) - 1 - x.Choose(len(coefSets)) // longest first, see below
+			rec.modelCoefs = append([]float64(nil), coefSets[ci]...)
+			rec.data = make([]RawType, 5)
+			sizes = append(sizes, len(rec.modelCoefs))
+			r = v14CheckSummary(x, rec, tm.ns)
+		} else {
+			n := lens[len(lens)-1-x.Choose(len(lens))]
+			rec.signed = x.Choose(2) == 1
+			rec.data = v14Samples(i, n)
+			rec.modelCoefs = []float64{1, 2}
+			sizes = append(sizes, n)
+			r = v14CheckRecord(x, rec, tm.ns)
+		}
+		varied = varied || sizes[i] != sizes[0]
+		outcome += r.Outcome + ";"
+		if r.Violation != "" {
+			r.Class = "c14-seq-" + strings.TrimPrefix(r.Class, "c14-")
+			r.Violation = fmt.Sprintf("message %d of a sequence of %s whose variable parts have %v elements so far: %s", i+1, kind, sizes, r.Violation)
+			r.Outcome = outcome
+			x.Steps = i + 1
+			return r
+		}
+	}
+	x.Steps = v14SeqLen
+	return vexp.Result{Nontrivial: varied, Outcome: outcome}
+}
+
 func TestVerifC14(t *testing.T) {
 	r := vexp.NewRunner("C14")
 	defer r.Finish()
@@ -612,12 +680,17 @@ func TestVerifC14(t *testing.T) {
 	coefSets := v14CoefSets()
 	r.SetBound(fmt.Sprintf("records: channel {0,1,255,256,65535} x signed x presamples {0,1,5} x length %v x 3 sample patterns x 7 sample periods x 7 volts-per-arb (zero, -0, denormal, max, +-Inf, NaN) "+
 		"x 3 trigger times (1971, 2026 in a +7h zone, 2200) x 5 frame numbers (0,1,2^40,2^63-1,-1); summaries: the same channels, presamples, lengths, times and frames "+
-		"x %d values (NaN, +-Inf, 0, exact and inexact float32) for each of the 5 analysis fields x coefficient sets of 0,1,2,3,64 float64 (incl. NaN, -0, Inf, 1e300, denormal); socket family: 1-2 batches of 1-3 records over channels {0,1,256} through the real startSocket goroutine and ZMQ PUB socket "+
-		"(pulse-record and summary converters) to a SUB client", lens, len(analysis)))
+		"x %d values (NaN, +-Inf, 0, exact and inexact float32) for each of the 5 analysis fields x coefficient sets of 0,1,2,3,64 float64 (incl. NaN, -0, Inf, 1e300, denormal); socket family: 1-2 batches of 1-3 records over channels {0,1,256} (4, 0 and 2 coefficients, 3-5 samples) through the real startSocket goroutine and ZMQ PUB socket "+
+		"(pulse-record and summary converters) to a SUB client; sequence family: %d consecutive messages from one converter, each with channel {0,65535} x (records: length %v x signed; summaries: the 5 coefficient sets), every message decoded in full",
+		lens, len(analysis), v14SeqLen, lens))
 
 	for _, kind := range []string{"records", "summaries"} {
 		kind := kind
 		r.DFS("socket/"+kind, -1, func(x *vexp.X) vexp.Result { return v14SocketBody(x, kind) })
+	}
+	for _, kind := range []string{"records", "summaries"} {
+		kind := kind
+		r.DFS("seq/"+kind, -1, func(x *vexp.X) vexp.Result { return v14SeqBody(x, kind, lens, coefSets) })
 	}
 	for _, ch := range v14Channels {
 		ch := ch
